@@ -224,6 +224,12 @@ A12 == E("A12", "args",
      <<V("v", VL(<<VO(<<"a">>, <<VI(1)>>), VNull, VO(<<"a", "b">>, <<VI(2), VS("x")>>)>>)), V("w", VL(<<VL(<<VO(<<"a">>, <<VI(1)>>)>>), VNull>>))>>,
      <<V("v", VNull)>> >>)
 
+\* a variable named like a canonical name, nested in a literal of a directive argument
+A13 == E("A13", "args",
+  dQV(<<dVar("a", Ty("Int"), Absent)>>,
+      <<dFD("i", <<dA("x", VI(5))>>, <<dDir("lim", <<dA("xs", VL(<<VVar("a"), VI(1)>>))>>)>>, <<>>), dF("s", <<dA("x", VS("k"))>>, <<>>)>>),
+  << <<V("a", VI(9))>> >>)
+
 ----------------------------------------------------------------------------
 \* S3 "nest"
 N1 == E("N1", "nest",
@@ -262,6 +268,6 @@ N6 == E("N6", "nest",
   <<<<>>>>)
 
 Corpus == <<P1, P2, P3, P4, P5, P6, P7, P8, P9, P10, P11, P12, P13, P14, P15, P16, P17,
-            A1, A2, A3, A4, A5, A6, A7, A8, A9, A10, A11, A12,
+            A1, A2, A3, A4, A5, A6, A7, A8, A9, A10, A11, A12, A13,
             N1, N2, N3, N4, N5, N6>>
 =============================================================================
